@@ -116,7 +116,7 @@ fn c10_index_tracks_current_expiry() {
     match op {
         0 => {
             t.update(1, &t1, t2);
-            assert!(vk_find(&t, 1) == Some(((e2.0 % 2) as usize, t2)), "C10: a TTL change moves the entry to the shard of the new expiry (and only there)");
+            assert!(vk_find(&t, 1) == Some(((e2.0 % 2) as usize, t2)) && vk_count(&t, 1) == 1, "C10: a TTL change moves the entry to the shard of the new expiry (and only there: no stale copy stays behind)");
             kani::cover!(e1.0 % 2 == e2.0 % 2 && e1 != e2, "old and new expiry in the same shard");
             kani::cover!(e1.0 % 2 != e2.0 % 2, "old and new expiry in different shards");
         }
@@ -130,6 +130,13 @@ fn c10_index_tracks_current_expiry() {
         }
     }
     assert!(vk_find(&t, 7) == Some((other_shard, other)), "C03: operations on one id never disturb another id's expiry entry");
+}
+/// in how many shards does `id` have an entry (must be <= 1)
+pub(crate) fn vk_count(t: &Arc<TTLTicker>, id: KeyId) -> usize {
+    let mut n = 0;
+    let mut i = 0;
+    while i < t.shards.len() { if vk_index_entry(t, i, id).is_some() { n += 1; } i += 1; }
+    n
 }
 pub(crate) fn vk_classify(t: &Arc<TTLTicker>) {
     let mut i = 0;
